@@ -308,28 +308,29 @@ def _finite(r):
     return True
 
 
-_CELLS = None
+_CELLS = {}
 
 
-def _cells():
-    global _CELLS
-    if _CELLS is None:
-        _CELLS = build_cells(load())
-    return _CELLS
+def _cells(style="flat"):
+    if style not in _CELLS:
+        _CELLS[style] = build_cells(load(style))
+    return _CELLS[style]
 
 
 def cases(tier, seed):
     # the table needs the library to be built; enumerate names in a subprocess-free way:
     # the parent only needs stable keys, so build the table once here too (pure construction).
-    cells = _cells()
     out = []
-    for i, (name, cls, kind, fn, a, k) in enumerate(cells):
-        out.append({"key": f"{kind}/{name}/{cls}", "idx": i, "entry": name, "cls": cls, "kind": kind})
+    for style in (("flat",) if tier == "quick" else ("flat", "package")):
+        cells = _cells(style)
+        for i, (name, cls, kind, fn, a, k) in enumerate(cells):
+            key = f"{kind}/{name}/{cls}" + ("" if style == "flat" else "/package-import")
+            out.append({"key": key, "idx": i, "entry": name, "cls": cls, "kind": kind, "style": style})
     return out
 
 
 def run_case(case, seed):
-    name, cls, kind, fn, a, k = _cells()[case["idx"]]
+    name, cls, kind, fn, a, k = _cells(case.get("style", "flat"))[case["idx"]]
     assert (name, cls, kind) == (case["entry"], case["cls"], case["kind"])
     np.random.seed(12345)
     before = _hash_args(a, k)
@@ -358,7 +359,7 @@ def run_case(case, seed):
 def summarize(results):
     by = {}
     for r in results:
-        kind, name, cls = r["key"].split("/", 2)
+        kind, name, cls = r["key"].replace("/package-import", "").split("/", 2)
         g = "unknown_option" if cls.startswith("unknown_option") else ("boundary" if cls.startswith("boundary") else cls.split("_ord")[0])
         by[f"{kind}:{g}"] = by.get(f"{kind}:{g}", 0) + 1
     return {"cells_by_class": by, "entry_points": len({r["key"].split("/")[1] for r in results})}
